@@ -51,6 +51,27 @@ MUTANTS = [
 
 impl SessionEngine {
     pub fn new('''),
+ dict(id='c01-forget-seq-increment', prop='C01', rule='C01.5', file=S, what='forget `*req.seq += 1` after the request-started frame',
+      old='''                kind: req.request_kind.to_string(),
+            },
+        })
+        .await;
+    *req.seq += 1;
+''',
+      new='''                kind: req.request_kind.to_string(),
+            },
+        })
+        .await;
+'''),
+ dict(id='c01-increment-without-dump-frame', prop='C01', rule='C01.5', file=S, what='advance the seq even when no request-dump frame was emitted',
+      old='''    )? {
+        req.sink.emit(event).await;
+        *req.seq += 1;
+    }''',
+      new='''    )? {
+        req.sink.emit(event).await;
+    }
+    *req.seq += 1;'''),
  # ------------------------------------------------------------------ C02
  dict(id='c02-open-write-mode', prop='C02', rule='C02.1', file='crates/rip-log/src/lib.rs', what='open the truth file with write(true) instead of append(true)',
       old='OpenOptions::new().create(true).append(true).open(&path)?', new='OpenOptions::new().create(true).write(true).open(&path)?'),
@@ -74,10 +95,11 @@ impl SessionEngine {
                 policy_id,
                 decision: "dry_run".to_string(),'''),
  # ------------------------------------------------------------------ C03
- dict(id='c03-skip-without-default', prop='C03', rule='C03.1', file=K, what='skip_serializing_if on a Vec field without default',
-      old='''    ContinuityToolSideEffects {''', new='''    ContinuityToolSideEffects {
-        #[serde(skip_serializing_if = "Vec::is_empty")]
-        extra_notes: Vec<String>,''', compiles=False),
+ dict(id='c03-skip-without-default', prop='C03', rule='C03.1', file=K, what='drop `default` from a Vec field that is skipped when empty (a frame written without it cannot be read back)',
+      old='''        #[serde(default, skip_serializing_if = "Vec::is_empty")]
+        compaction_checkpoints: Vec<ContextSelectionCompactionCheckpointV1>,''',
+      new='''        #[serde(skip_serializing_if = "Vec::is_empty")]
+        compaction_checkpoints: Vec<ContextSelectionCompactionCheckpointV1>,'''),
  dict(id='c03-mutate-between-log-and-broadcast', prop='C03', rule='C03.2', file=C, what='normalise the timestamp between log append and broadcast',
       old='''            .map_err(|err| format!("append continuity message: {err}"))?;
         self.stream_cache.append_best_effort(&event);''',
@@ -231,14 +253,11 @@ impl SessionEngine {
         .spawn_session(handle, content, Some(run_link), openresponses_override);''',
       new='''        .is_err()
     {
-        tracing_noop();
+        let _ = StatusCode::INTERNAL_SERVER_ERROR;
     }
     state
         .engine
-        .spawn_session(handle, content, Some(run_link), openresponses_override);''', also=[dict(
-          old='''async fn thread_post_message(''', new='''fn tracing_noop() {}
-
-async fn thread_post_message(''')]),
+        .spawn_session(handle, content, Some(run_link), openresponses_override);'''),
  # ------------------------------------------------------------------ C08
  dict(id='c08-clock-in-compiler', prop='C08', rule='C08.1', file='crates/ripd/src/context_compiler.rs', what='read the clock inside select_recent_messages',
       old='''    let mut selected_rev: Vec<SelectedMessage> = Vec::new();
@@ -415,12 +434,36 @@ async fn thread_post_message(''')]),
       old='if matches!(pid_liveness, crate::PidLiveness::Dead) && !endpoint_reachable {', new='if !endpoint_reachable || matches!(pid_liveness, crate::PidLiveness::Dead) {'),
  # ------------------------------------------------------------------ C19
  dict(id='c19-key-prefix-in-transport-error', prop='C19', rule='C19.1', file=S, what='put a key prefix into the transport error frame',
-      old='''            pipe.emit_transport_error(err.to_string()).await;''',
-      new='''            let hint = req.config.api_key.as_deref().map(|k| k.chars().take(6).collect::<String>()).unwrap_or_default();
-            pipe.emit_transport_error(format!("{err} (key {hint}…)")).await;'''),
+      old='''                OpenResponsesSsePipe::new(req.session_id, req.seq, req.sink, None, validation);
+            pipe.emit_transport_error(err.to_string()).await;
+            return Err("provider_error".to_string());
+        }
+    };
+
+    let status = response.status();''',
+      new='''                OpenResponsesSsePipe::new(req.session_id, req.seq, req.sink, None, validation);
+            let hint = req.config.api_key.as_deref().map(|k| k.chars().take(6).collect::<String>()).unwrap_or_default();
+            pipe.emit_transport_error(format!("{err} (key {hint}…)")).await;
+            return Err("provider_error".to_string());
+        }
+    };
+
+    let status = response.status();'''),
  dict(id='c19-debug-config', prop='C19', rule='C19.2', file=S, what='format the whole config with {:?} in an error path',
-      old='''            pipe.emit_transport_error(err.to_string()).await;''',
-      new='''            pipe.emit_transport_error(format!("{err} config={:?}", req.config)).await;'''),
+      old='''                OpenResponsesSsePipe::new(req.session_id, req.seq, req.sink, None, validation);
+            pipe.emit_transport_error(err.to_string()).await;
+            return Err("provider_error".to_string());
+        }
+    };
+
+    let status = response.status();''',
+      new='''                OpenResponsesSsePipe::new(req.session_id, req.seq, req.sink, None, validation);
+            pipe.emit_transport_error(format!("{err} config={:?}", req.config)).await;
+            return Err("provider_error".to_string());
+        }
+    };
+
+    let status = response.status();'''),
  # ------------------------------------------------------------------ C20
  dict(id='c20-unwrap-in-update', prop='C20', rule='C20.2', file='crates/rip-tui/src/frame_store.rs', what='unwrap in FrameStore::get_by_seq',
       old='''        let idx = self.index_of_seq(seq)?;
